@@ -283,6 +283,22 @@ def resolve_ite_free(t):
     return out
 
 
+def lift_ite(t):
+    """F(ite(c, a, b)) -> ite(c, F(a), F(b)) when ``t`` contains exactly one conditional subterm (else ``t``)."""
+    if t.op == "ite":
+        return t
+    ites = {}
+    for x in tm.walk(t):
+        if x.op == "ite":
+            ites[x.id] = x
+    if len(ites) != 1:
+        return t
+    i = next(iter(ites.values()))
+    a = tm.rebuild(t, lambda x: i.a[1] if x is i else None)
+    b = tm.rebuild(t, lambda x: i.a[2] if x is i else None)
+    return tm.ite(i.a[0], a, b)
+
+
 def kwargs_chain(t):
     """Walk an upd-chain over a **kwargs dict: yields (how, key_term, val_term, cond_stack)."""
     out = []
